@@ -705,7 +705,7 @@ class _Merger(object):
 
     def _concile_meta(self, left, right):
         default = left.empty
-        if left.default != left.empty and right.default != right.empty:
+        if left.default is not left.empty and right.default is not right.empty:
             if left.default == right.default:
                 default = left.default
             else:
@@ -716,14 +716,14 @@ class _Merger(object):
                 default = None
         annotation = left.empty
         upgraded_annotation = EmptyAnnotation
-        if left.annotation != left.empty and right.annotation != right.empty:
+        if left.annotation is not left.empty and right.annotation is not right.empty:
             if left.annotation == right.annotation:
                 annotation = left.annotation
                 upgraded_annotation = left.upgraded_annotation
-        elif left.annotation != left.empty:
+        elif left.annotation is not left.empty:
             annotation = left.annotation
             upgraded_annotation = left.upgraded_annotation
-        elif right.annotation != right.empty:
+        elif right.annotation is not right.empty:
             annotation = right.annotation
             upgraded_annotation = right.upgraded_annotation
         return left.replace(default=default, annotation=annotation, upgraded_annotation=upgraded_annotation)
